@@ -339,18 +339,32 @@ def op_stats(mon, t):
             op_stats(mon, c)
 
 
-def avoided(mon, t, g, route):
+def diverge_risk(t, g, enumerated):
+    """Input-side superset of the expressions on which the open divergence finding strikes.
+    enumerated=True (ASTs of the exhaustive space over ATOMS, <= 6 nodes): the expression has * or +
+    and its position automaton is prefix-ambiguous (two different runs on one string end in the same
+    position); on that finite space this was checked to cover every diverging AST (size <= 5: 912
+    flagged, 288 of them diverge; size 6: 10504 flagged, 2544 diverge; none unflagged).  Concatenation
+    and alternation are associative for the automaton, so the parse route (left-nested) is covered too.
+    Elsewhere (random expressions): everything outside the class rxref.surely_terminates()."""
+    if enumerated:
+        return rxref.has(t, ("star", "plus")) and g.prefix_ambiguous()
+    return not rxref.surely_terminates(t)
+
+
+def avoided(mon, t, g, route, enumerated):
     """the trigger constructs of the open findings are not handed to ppci"""
     if K_KEYERR in mon.avoid and not g.has_dead_state():
         return "avoid:" + K_KEYERR
-    if K_DIVERGE in mon.avoid and rxref.may_diverge(t):
+    if K_DIVERGE in mon.avoid and diverge_risk(t, g, enumerated):
         return "avoid:" + K_DIVERGE
     if route == "parse" and K_PARSER in mon.avoid and not rxref.concat_only_at_top(t):
         return "avoid:" + K_PARSER
     return None
 
 
-def check_single(mon, eng, t, strs, table_fn, member, routes, budget, seen_patterns=None, scan_strs=None):
+def check_single(mon, eng, t, strs, table_fn, member, routes, budget, seen_patterns=None, scan_strs=None,
+                 enumerated=False):
     """one expression on the requested routes against a string list.
     table_fn() -> {s: bool} (or None: oracle disagreement)"""
     orc = Oracle(t, mon)
@@ -358,7 +372,7 @@ def check_single(mon, eng, t, strs, table_fn, member, routes, budget, seen_patte
     tab = None
     nontrivial = False
     for route in routes:
-        why = avoided(mon, t, orc.g, route)
+        why = avoided(mon, t, orc.g, route, enumerated)
         if why:
             mon.discard(why + ":" + route)
             continue
@@ -443,7 +457,8 @@ def run_exh(mon, eng, spec):
     asts = rxref.enumerate_asts(spec["size"], ATOMS)
     seen = set()
     for t in asts[spec["slice"]::spec["of"]]:
-        check_single(mon, eng, t, strs, lambda orc: table_for(orc, strs), None, ("direct", "parse"), BUDGET_SMALL, seen)
+        check_single(mon, eng, t, strs, lambda orc: table_for(orc, strs), None, ("direct", "parse"), BUDGET_SMALL, seen,
+                     enumerated=True)
 
 
 def table_for(orc, strs):
@@ -589,10 +604,13 @@ def run_tokens(mon, eng, spec):
     for i in range(spec["n"]):
         r = rng(spec["seed"], PROPERTY, "tokens/%d/%d" % (spec["shard"], i))
         k = r.choice([2, 2, 3])
-        asts = [r.choice(pool) if r.random() < 0.8 else rand_ast(r, r.randint(3, 7), groups=False) for _ in range(k)]
+        asts, enum = [], []
+        for _ in range(k):
+            enum.append(r.random() < 0.8)
+            asts.append(r.choice(pool) if enum[-1] else rand_ast(r, r.randint(3, 7), groups=False))
         names = ["t%d" % j for j in range(k)]
         texts = r.sample(strs_all, 150) + [""]
-        check_tokens(mon, eng, asts, names, texts, ("direct", "parse"))
+        check_tokens(mon, eng, asts, names, texts, ("direct", "parse"), enum)
 
 
 def joint_dead_state(gs):
@@ -612,15 +630,15 @@ def joint_dead_state(gs):
     return False
 
 
-def check_tokens(mon, eng, asts, names, texts, routes):
+def check_tokens(mon, eng, asts, names, texts, routes, enumerated=None):
     orcs = [Oracle(t, mon) for t in asts]
     pats = [o.pattern for o in orcs]
     for route in routes:
         why = None
         if K_KEYERR in mon.avoid and not joint_dead_state([o.g for o in orcs]):
             why = "avoid:" + K_KEYERR
-        for t, o in zip(asts, orcs):
-            if why is None and K_DIVERGE in mon.avoid and rxref.may_diverge(t):
+        for j, (t, o) in enumerate(zip(asts, orcs)):
+            if why is None and K_DIVERGE in mon.avoid and diverge_risk(t, o.g, bool(enumerated and enumerated[j])):
                 why = "avoid:" + K_DIVERGE
             if why is None and route == "parse" and K_PARSER in mon.avoid and not rxref.concat_only_at_top(t):
                 why = "avoid:" + K_PARSER
